@@ -196,6 +196,7 @@ type Addr struct {
 	Path   []PathElem
 	Typ    types.Type // type of the addressed location
 	Struct types.Type // for aStructPtr
+	Global *ssa.Global // aLocal with Local == nil: a package-level variable (element of a global array / field of a global struct)
 }
 
 func (a Addr) withPath(p PathElem, t types.Type) Addr {
@@ -249,6 +250,12 @@ func (x *Exec) inject(v Term, path []PathElem, nv Term) Term {
 func (x *Exec) loadAddr(st *State, a Addr) Term {
 	switch a.Kind {
 	case aLocal:
+		if a.Local == nil {
+			if a.Global == nil {
+				ufail("load through an address without storage")
+			}
+			return x.project(x.globalGet(st, a.Global), a.Path)
+		}
 		v, ok := st.locals[a.Local]
 		if !ok {
 			// not yet initialised on this path (alloc in a block not executed): use zero
@@ -274,6 +281,14 @@ func (x *Exec) loadAddr(st *State, a Addr) Term {
 func (x *Exec) storeAddr(st *State, a Addr, v Term) {
 	switch a.Kind {
 	case aLocal:
+		if a.Local == nil {
+			if a.Global == nil {
+				ufail("store through an address without storage")
+			}
+			name := "G:" + a.Global.Pkg.Pkg.Name() + "." + a.Global.Name()
+			st.heaps[name] = x.vc.define("g_"+a.Global.Name(), x.inject(x.globalGet(st, a.Global), a.Path, v))
+			return
+		}
 		cur, ok := st.locals[a.Local]
 		if !ok {
 			cur = x.w.zeroOf(a.Local.Type().(*types.Pointer).Elem())
